@@ -176,6 +176,45 @@ def lt_family(r: common.Rng) -> dict:
     return {"suite": "strl", "parts": parts, "avail": pids, "now": 0, "gran": 1, "tree": {"t": "obj", "name": "O", "ch": ch}}
 
 
+def purge_family(r: common.Rng) -> dict:
+    """Contention at one slot between a Max whose Choose options ask for DIFFERENT numbers of machines (several
+    strategies of one task, in random order) and competitors on the same partition, with utilities that reward
+    the largest option: the shape on which the capacity-constraint purge pass decides from the recorded usage of
+    an expression whether a capacity row can be dropped."""
+    k = itertools.count()
+    np_ = r.choice([1, 1, 2])
+    parts = [{"id": i, "name": f"P{i}", "qty": r.choice([2, 2, 3, 3, 4])} for i in range(np_)]
+    pids = [p["id"] for p in parts]
+    main = parts[0]
+    t0 = r.randint(0, 3)
+
+    def options(task, lo, hi):
+        counts = r.sample(range(lo, hi + 1), min(r.randint(2, 3), hi - lo + 1))
+        r.shuffle(counts)  # the order of the children matters to the bookkeeping of the pass
+        dur = r.choice([1, 2, 3])
+        ch = []
+        for n in counts:
+            st = t0 + (r.choice([0, 0, 0, 1]) if dur > 1 else 0)
+            ch.append({"t": "choose", "name": task, "parts": [main["id"]] if r.random() < 0.8 else list(pids), "n": n,
+                       "start": st, "dur": dur if r.random() < 0.8 else r.choice([1, 2, 3]), "u": n * r.randint(1, 2) + r.randint(0, 1)})
+        return {"t": "max", "name": f"M{next(k)}", "ch": ch}
+
+    ch = [options("TA", 1, main["qty"])]
+    for j in range(r.randint(1, 2)):
+        if r.random() < 0.5:
+            ch.append(options(f"TB{j}", 1, main["qty"]))
+        else:
+            ch.append({"t": "choose", "name": f"TC{j}", "parts": [main["id"]], "n": r.randint(1, main["qty"]), "start": t0 + r.choice([0, 0, 1]),
+                       "dur": r.choice([1, 2]), "u": r.randint(1, 4)})
+    r.shuffle(ch)
+    shape = r.choice(["plain", "plain", "min", "scale"])
+    if shape == "min" and len(ch) >= 2:
+        ch = [{"t": "min", "name": "N", "ch": ch[:2]}] + ch[2:]
+    elif shape == "scale":
+        ch = [{"t": "scale", "name": "S", "f": 2, "disregard": False, "ch": [ch[0]]}] + ch[1:]
+    return {"suite": "strl", "parts": parts, "avail": pids, "now": 0, "gran": 1, "tree": {"t": "obj", "name": "O", "ch": ch}}
+
+
 def walk(n):
     yield n
     for c in n.get("ch", []):
